@@ -120,10 +120,16 @@ CHECKS["C17"] = {
         "deps": ["engines/msgmc/c17_world.h", "engines/msgmc/c17_refpoll.h"],
         "variant": "plain", "libset": "core",
         # one harness process that runs 16 worker processes itself (one visited set, exact state counts)
-        "quick": {"parts": 1, "args": ["--workers", 16, "--depth", 6, "--depth2", 4, "--bdepth", 2], "deadline": 400,
-                  "bounds": "3 messages: depth 6 (139, 1 s, warm 50), depth 4 (220 / 93-), depth 2 on 200 configurations"},
+        "quick": {"parts": 1, "args": ["--workers", 16, "--depth", 6, "--depth2", 4, "--bdepth", 2,
+                                       "--pdepth", 2, "--pbdepth", 0], "deadline": 500,
+                  "bounds": "3 messages: depth 6 (139, 1 s, warm 50), depth 4 (220 / 93-), depth 2 on 200 configurations; "
+                            "periodically perturbed runs from all states of depth <= 2 of the 3 core configurations and "
+                            "from the initial state of the 200 others"},
         "thorough": {"parts": 1, "args": ["--workers", 16, "--depth", 7, "--depth2", 6, "--bdepth", 3,
-                                          "--depth4", 5, "--bdepth4", 2], "deadline": 3000,
-                     "bounds": "3 messages: depth 7 / 6 / 3; 4 messages: depth 5 (1239) / 4 (220-) / 2 on 380 configurations"},
+                                          "--depth4", 5, "--bdepth4", 2, "--pdepth", 3, "--pdepth4", 2, "--pbdepth", 0],
+                     "deadline": 3600,
+                     "bounds": "3 messages: depth 7 / 6 / 3; 4 messages: depth 5 (1239) / 4 (220-) / 2 on 380 configurations; "
+                               "periodically perturbed runs from all states of depth <= 3 (3 messages) / <= 2 (4 messages) of "
+                               "the core configurations and from the initial state of the 580 others"},
     }],
 }
